@@ -167,7 +167,19 @@ func check(line, obs string) string {
 	if ref, ok := s.Independent(iv, pt, ad); ok && !bytes.Equal(ref, ct) {
 		return "ciphertext differs from the standard algorithm (stdlib reference)"
 	}
+	// published test vectors (RFC 8452 appendix C.1/C.2), fed through corpus/C01.txt
+	if want, ok := rfc8452[hx.H(s.Key)+"|"+hx.H(iv)+"|"+hx.H(pt)+"|"+hx.H(ad)]; ok && s.Scheme == "siv" && hx.H(ct[len(pre):]) != hx.H(iv)+want {
+		return "AES-GCM-SIV output differs from the RFC 8452 test vector"
+	}
 	return ""
+}
+
+// key|nonce|plaintext|aad -> ciphertext||tag
+var rfc8452 = map[string]string{
+	"01000000000000000000000000000000|030000000000000000000000|-|-":                                                "dc20e2d83f25705bb49e439eca56de25",
+	"01000000000000000000000000000000|030000000000000000000000|0100000000000000|-":                                 "b5d839330ac7b786578782fff6013b815b287c22493a364c",
+	"01000000000000000000000000000000|030000000000000000000000|0200000000000000|01":                                "1e6daba35669f4273b0a1a2560969cdf790d99759abd1508",
+	"0100000000000000000000000000000000000000000000000000000000000000|030000000000000000000000|0100000000000000|-": "c2ef328e5c71c83b843122130f7364b761e0b97427e3df28",
 }
 
 func class(line, obs string) string {
